@@ -142,6 +142,31 @@ Proof.
   vm_compute; reflexivity.
 Qed.
 
+(* SHARPNESS of the hypothesis "the crates BEFORE file i are in the domain" of c12_multi_python.  Workspace ws_py_taint:
+     alpha/src/lib.rs:  #[typeshare] struct A { d: datetime }      (a user type called `datetime`: outside c12_py_dom)
+     beta/src/lib.rs:   #[typeshare] struct Plain { n: u32 }       (inside the domain, outside the classes)
+   alpha's field prints as the text `datetime`, which registers the datetime helper functions without the datetime
+   import; the state alpha leaves violates the invariant, and beta.py - whose own crate is beyond reproach - carries
+   the helper functions and uses datetime without importing it. *)
+Definition ws_py_taint : list ws_entry :=
+  [w_entry (lit "alpha") (w_file [w_struct [] (lit "A") [w_fld (lit "d") (w_ty (lit "datetime"))]] [[lit "typeshare"]; [lit "datetime"]]);
+   w_entry (lit "beta") (w_file [w_struct [] (lit "Plain") [w_fld (lit "n") (w_ty (lit "u32"))]] [[lit "typeshare"]; [lit "u32"]])].
+Example c12_multi_python_earlier_dom_needed :
+  exists plan p_alpha p_beta t_alpha st1 uses defs,
+    y_plan Python ws_py_taint = Some plan /\ plan = [p_alpha; p_beta] /\
+    c12_py_dom y_py_cfg (items_of (op_data p_alpha)) = false /\
+    c12_py_dom y_py_cfg (items_of (op_data p_beta)) = true /\ c12_py_known y_py_cfg (op_data p_beta) = None /\
+    py_generate_multi uc_exec y_py_cfg py_empty_state (op_data p_alpha) = Ok (t_alpha, st1) /\
+    c12_py_state_ok st1 = false /\
+    c12_py_observe_multi uc_exec y_py_cfg st1 (op_data p_beta) = Ok (uses, defs) /\
+    In (lit "datetime") uses /\ ~ In (lit "datetime") defs /\ c12_good uses defs = false.
+Proof.
+  do 7 eexists. split; [vm_compute; reflexivity|]. split; [reflexivity|].
+  repeat (split; [vm_compute; reflexivity|]).
+  split; [vm_compute; auto|]. split; [intros H; vm_compute in H; repeat (destruct H as [H|H]; [discriminate H|]); exact H|].
+  vm_compute; reflexivity.
+Qed.
+
 (* ---------------------------------------------------------------- Swift
      alpha/src/lib.rs:  #[typeshare] struct Ping { nothing: () }
      beta/src/lib.rs:   #[typeshare] struct Plain { n: u32 }
